@@ -13,6 +13,7 @@ RULE = ("per case a sequence of generated distributions is evaluated in ONE proc
         "default delay == quantile(0.99) >= 0; estimator: weights sum to 1, scales > 0, means inside the data scale, rescaling the data by c "
         "rescales means/scales by c, constant data of size n in {1,2,20,100} and magnitudes from 0 to 2000 -> Deterministic(mean); one evaluation = one distribution or one "
         "estimator data set; non-trivial = stochastic distribution (sigma > 0) or non-constant data; distinct by parameter digest")
+RULE += ' Built later: deterministic quantiles at levels 0/1 and array levels; extreme mixture levels must be refused or stay consistent; out-of-range requested trainable delays saturate; constant data of magnitude up to 2000; estimator pruning percentiles.'
 MIN_NONTRIVIAL = {"quick": 150, "thorough": 4000}
 DECIDING = ["samples_checked", "quantiles_checked"]
 ASSUMPTIONS = ["scipy.stats.norm in float64 is the reference CDF", "mixture quantiles are queried with scalar q in [0.005, 0.995] (the way rex calls them); "
